@@ -16,9 +16,14 @@ probe inside every library function) are compared with an independent decision-t
 from g3doc/reference/functions.md, the converted_call / ConversionOptions docstrings and the
 comments in conversion.is_allowlisted.  Faults are one-shot exceptions injected by monkeypatch at a
 named stage of the conversion pipeline.
+
+Native callables (never converted, must simply be called) include the *namesakes* of the builtins the
+wrapper substitutes by overloads: C functions / bound C methods such as decimal.Context.abs,
+ndarray.any/all, operator.abs, whose __name__ is a substituted builtin's name but which are not it.
 """
 import atexit
 import contextlib
+import decimal as _decimal
 import io
 import itertools
 import json
@@ -617,6 +622,62 @@ NATIVE = {
     'posixpath_join': ('posixpath.join', [("('a', 'b')", 'None')]),
     'urllib_quote': ('urllib.parse.quote', [("('a b',)", "{'safe': ''}")]),
 }
+# Native *namesakes*: C-implemented functions and bound C methods whose __name__ is the name of a builtin that the wrapper
+# substitutes by an overload (abs/all/any/enumerate/filter/float/int/len/map/next/print/range/sorted/zip) but which are not
+# that builtin.  They must simply be called (receiver kept, own signature).  Every first argument shape is one for which the
+# native call and the overload of the builtin of the same name differ observably (value, exception type or receiver state);
+# the unbound descriptors, the non-substituted names (max/sum/round) and the genuine `next` are controls.
+NAMESAKE = {
+    'ns:decimal_ctx_abs': ('decimal.Context(prec=2).abs',
+                           [("(decimal.Decimal('-1.23456'),)", 'None'), ("(decimal.Decimal('2.34567'),)", '{}'), ('(-7,)', 'None'),
+                            ('()', 'None'), ("('x',)", '{}'), ("(decimal.Decimal('-1.23456'), 1)", 'None')]),
+    'ns:decimal_ctx_abs_trapping': ('decimal.Context(prec=2, traps=[decimal.Inexact]).abs',
+                                    [("(decimal.Decimal('-1.23456'),)", 'None'), ("(decimal.Decimal('-1.2'),)", '{}')]),
+    'ns:decimal_ctx_subclass_abs': ("type('Ctx3', (decimal.Context,), {})(prec=3).abs",
+                                    [("(decimal.Decimal('-9.87654'),)", '{}'), ("(decimal.Decimal('1E+3'),)", 'None')]),
+    'ns:decimal_ctx_abs_unbound': ('decimal.Context.abs', [("(decimal.Context(prec=2), decimal.Decimal('-1.23456'))", 'None'),
+                                                           ("(decimal.Decimal('-1.23456'),)", '{}')]),
+    'ns:operator_abs': ('operator.abs', [('()', "{'x': -3}"), ('(-3,)', 'None'), ("(decimal.Decimal('-1.5'),)", '{}'), ('()', 'None'),
+                                         ("('a',)", 'None')]),
+    'ns:operator_dunder_abs': ('operator.__abs__', [('()', "{'x': 2.5}"), ('(-2.5,)', '{}'), ('(1, 2)', 'None')]),
+    'ns:next_builtin': ('next', [('(iter([7, 8]),)', 'None'), ('(iter([]), 5)', 'None'), ('(iter([]),)', '{}'), ('([1],)', 'None'),
+                                 ('(iter([]),)', "{'default': 1}")]),
+}
+try:
+  import curses as _curses
+  # never called successfully: a C function taking no arguments, so that the native call is a TypeError
+  NAMESAKE['ns:curses_filter'] = ('curses.filter', [('(None, [0, 1, 2])', 'None'), ('(neg, [0, 1])', '{}')])
+except Exception:  # pragma: no cover
+  _curses = None
+try:
+  import numpy as _np
+  NAMESAKE.update({
+      'ns:ndarray_any': ('np.array([[0, 0], [0, 3], [1, 1]]).any',
+                         [('()', 'None'), ('()', "{'axis': 1}"), ('(0,)', 'None'), ('()', '{}'), ('()', "{'keepdims': True}"),
+                          ('([0, 1],)', 'None')]),
+      'ns:ndarray_all': ('np.array([[0, 2], [1, 3]]).all',
+                         [('()', "{'axis': 0}"), ('()', 'None'), ('(1,)', '{}'), ('([],)', 'None'),
+                          ('()', "{'axis': (0, 1)}")]),
+      'ns:ndarray_subclass_any': ("np.array([[0, 1], [0, 0]]).view(type('SubArr', (np.ndarray,), {})).any",
+                                  [('()', '{}'), ('(1,)', 'None'), ('()', "{'axis': 0}")]),
+      'ns:ndarray0d_all': ('np.array(3).all', [('()', 'None'), ('()', "{'axis': None}")]),
+      'ns:npscalar_any': ('np.int64(0).any', [('()', 'None'), ('()', '{}'), ('(None,)', 'None')]),
+      'ns:npscalar_all': ('np.float64(2.5).all', [('()', 'None'), ('()', "{'axis': None}")]),
+      'ns:npbool_all': ('np.bool_(False).all', [('()', '{}'), ('()', 'None')]),
+      'ns:ndarray_any_unbound': ('np.ndarray.any', [('(np.array([0, 3]),)', 'None'), ('(np.array([[0, 3], [0, 0]]), 1)', '{}'), ('()', 'None')]),
+      'ns:ndarray_max': ('np.array([[4, 9], [2, 1]]).max', [('()', 'None'), ('()', "{'axis': 0}"), ('(1,)', '{}')]),
+      'ns:ndarray_sum': ('np.array([[4, 9], [2, 1]]).sum', [('()', 'None'), ('(0,)', 'None'), ('()', "{'axis': 1, 'keepdims': True}")]),
+      'ns:ndarray_round': ('np.array([1.26, 2.51]).round', [('(1,)', 'None'), ('()', '{}')]),
+  })
+except Exception:  # pragma: no cover
+  _np = None
+# (out-of-range axes are left out: numpy's AxisError has a custom constructor, so crossing converted code it is re-raised as
+# StagingError by the error rewriting, which is a C12 matter)
+# the members of the class proper: __name__ is a substituted builtin's name, isbuiltin() is true, and it is not that builtin
+NAMESAKE_CONTROLS = ('ns:decimal_ctx_abs_unbound', 'ns:next_builtin', 'ns:ndarray_any_unbound', 'ns:ndarray_max', 'ns:ndarray_sum',
+                     'ns:ndarray_round')
+NATIVE.update(NAMESAKE)
+
 # allow-listed by a module rule only (not in the "permanently allowed" list): user_requested asks for conversion
 NATIVE_RULE_ONLY = ('posixpath_join', 'urllib_quote')
 for _n in NATIVE:
@@ -801,6 +862,14 @@ def _normalise(v, depth=0):
     return repr(v)
   if isinstance(v, type):
     return 'type:' + v.__name__
+  if isinstance(v, _decimal.Decimal):
+    return 'Decimal:' + str(v)
+  if isinstance(v, _decimal.Context):
+    return 'DecimalContext:' + repr(v)   # precision, rounding, raised flags, traps
+  if _np is not None and isinstance(v, _np.ndarray):
+    return ['ndarray:' + type(v).__name__, str(v.dtype), list(v.shape), _normalise(v.tolist(), depth + 1)]
+  if _np is not None and isinstance(v, _np.generic):
+    return 'npscalar:%s:%r' % (type(v).__name__, v.item())
   if isinstance(v, types.GeneratorType) or (hasattr(v, '__next__') and hasattr(v, '__iter__')) or isinstance(v, range):
     out = ['iter:' + type(v).__name__]
     try:
@@ -836,6 +905,10 @@ def _callable_state(f, depth=0):
     return ['function', f.__code__.co_name, sorted(f.__dict__), _normalise(f.__defaults__), _normalise(f.__kwdefaults__)]
   if isinstance(f, type):
     return ['class', f.__name__, sorted(k for k in f.__dict__ if not k.startswith('__'))]
+  if isinstance(f, types.BuiltinFunctionType):
+    # C function or bound C method: the receiver is the state a later user of the same object sees
+    recv = getattr(f, '__self__', None)
+    return ['builtin', f.__name__, 'module' if recv is None or isinstance(recv, types.ModuleType) else _normalise(recv)]
   return ['object', type(f).__name__, _instance_state(f)]
 
 
@@ -852,10 +925,19 @@ def _env(lib):
   import collections, copy, functools, inspect, itertools as it, math, operator, posixpath, re, urllib.parse
   K = lib.make_classes()
   env = dict(lib.__dict__)
+  env.update(_ARG_ENV)
   env.update(K=K, functools=functools, math=math, operator=operator, itertools=it, re=re, copy=copy,
              collections=collections, inspect=inspect, posixpath=posixpath, urllib=urllib, LST=[1, 2],
              neg=lib.__dict__.setdefault('_vf_neg', _make_neg()), _to_graph=api.to_graph, _api=api)
   return env
+
+
+# modules the argument / builder sources of the native kinds may name (also used by callsite_ok)
+_ARG_ENV = {'decimal': _decimal}
+if _np is not None:
+  _ARG_ENV['np'] = _np
+if _curses is not None:
+  _ARG_ENV['curses'] = _curses
 
 
 def _make_neg():
@@ -917,7 +999,7 @@ def _shape_call(lib, callsite, wrap, f, args, kwargs):
 def callsite_ok(callsite, args_src, kwargs_src):
   """Whether the call-site shape can express the argument shape (decided on the source text)."""
   try:
-    n = len(eval(args_src, {'K': _FakeK(), 'neg': None, 'max': max, 'len': len, 'int': int}))
+    n = len(eval(args_src, dict(_ARG_ENV, K=_FakeK(), neg=None)))
   except Exception:
     return False
   none = kwargs_src == 'None'
@@ -1442,14 +1524,16 @@ _KIND_NAMES = sorted(KINDS)
 _ENUM_KINDS = [k for k in _KIND_NAMES if k not in EXCLUDED_KINDS]
 _USER_KINDS = sorted(CONVERTIBLE)
 _NATIVE_KINDS = sorted(k for k in KINDS if k.startswith('native:'))
+_NAMESAKE_KINDS = sorted('native:' + n for n in NAMESAKE)
 _SPECIAL_KINDS = sorted(k for k in KINDS if k not in CONVERTIBLE and not k.startswith('native:'))
 
 
 @st.composite
 def cases(draw):
   # half of the draws go to kinds whose conversion is decided by the policy, the rest over everything
-  g = draw(st.integers(0, 19))
-  kind = draw(st.sampled_from(_USER_KINDS if g < 8 else _SPECIAL_KINDS if g < 15 else _NATIVE_KINDS))
+  # (the native namesakes of substituted builtins get a slice of their own on top of their share of the native slice)
+  g = draw(st.integers(0, 21))
+  kind = draw(st.sampled_from(_USER_KINDS if g < 8 else _SPECIAL_KINDS if g < 15 else _NATIVE_KINDS if g < 20 else _NAMESAKE_KINDS))
   excluded = None
   if kind in EXCLUDED_KINDS:
     excluded, kind = EXCLUDED_KINDS[kind]
@@ -1552,6 +1636,11 @@ def _classes(case, info):
         'opts=r%d_u%d_i%d' % (case['opts']['recursive'], case['opts']['user_requested'], case['opts']['internal'])]
   if case['callsite']:
     cl.append('callsite=' + case['callsite'])
+  if case['kind'] in _NAMESAKE_KINDS:
+    ns = case['kind'][len('native:'):]
+    cl.append('native_namesake:control' if ns in NAMESAKE_CONTROLS else 'native_namesake')
+    if ns not in NAMESAKE_CONTROLS and case['ctx'] != 'DISABLED':
+      cl.append('native_namesake:reaches_overload_lookup')
   if case.get('excluded'):
     cl.append('excluded:' + case['excluded'])
   if f:
